@@ -266,3 +266,25 @@ CHECKS["C06"]["components"] = XFER_COMPONENTS
 CHECKS["C19"]["batches"].append(
     {"family": "xfer", "mode": "limits", "cfgs": {"quick": ["B", "C", "D", "F"], "thorough": ["B", "C", "D", "F", "G"]},
      "runs": {"quick": 360, "thorough": 2400}})
+
+CONC_COMPONENTS = dict(COMPONENTS)
+CONC_COMPONENTS["simulated"] = COMPONENTS["simulated"] + [
+    "caller threads: real pthreads, parked; exactly one runs at a time, chosen by the seeded scheduler at basic blocks of "
+    "library code (clang trace-pc-guard callbacks resolved with dladdr)"]
+CHECKS["C20"] = {
+    "level": "exploration",
+    "classes": ["C20"],
+    "rule": ("one plan = 2-4 tasks, each a hist history on its own documents (own SimAllocator or the shared default allocator), "
+             "optionally all reading one shared document through JsonVariantConst (copy source, filter, comparison, "
+             "serialization), plus a seeded schedule of 1-64 preemptions placed guard-first on library basic blocks; "
+             "distinct = distinct plan texts (the schedule seed is part of the text)"),
+    "budget_s": {"quick": 80, "thorough": 1500},
+    "batches": [
+        {"family": "conc", "mode": "parked", "kind": "conc", "cfgs": {"quick": ["A"], "thorough": ["A", "B", "H"]},
+         "runs": {"quick": 2400, "thorough": 60000}},
+    ],
+    "probes": ["fault.preemptions_fired", "conc.switches", "op.shr"],
+    "components": CONC_COMPONENTS,
+    "assumptions": ["state written and read inside one basic block is below the scheduler's resolution",
+                    "the free-running ThreadSanitizer stage is auxiliary (bin/check --selftest tsan), never the deciding step"],
+}
